@@ -101,6 +101,14 @@ CHECKS = {
         "exhaustive": {"quick": False, "thorough": False},
         "trusted_base": ["reference border router in harness/refscion/src/router.rs"],
     },
+    "C17": {
+        "engines": [
+            eng("native-release", "chk-net", NATIVE_REL, params={"all": {"scale": 2}}),
+            eng("native-debugassert", "chk-net", NATIVE_CHK, params={"all": {"scale": 1}}),
+        ],
+        "exhaustive": {"quick": False, "thorough": False},
+        "trusted_base": ["provenance model over tagged bytes in harness/chk-net/src/c17.rs", "counting global allocator (vmon::alloc)"],
+    },
 }
 
 LEVEL = {p: "exploration" for p in CHECKS}
